@@ -21,3 +21,8 @@ package jsonpath
 //@   trusted
 //@   pure
 //@   ensures def: result == jpath(path)
+
+//@ func TravelerPathExists
+//@   trusted
+//@   pure
+//@   ensures def: result <==> pathExists(traveler, path)
